@@ -4,7 +4,10 @@ package pubsub
 
 import (
 	"context"
+	"encoding/json"
 	"fmt"
+	"os"
+	"path/filepath"
 	"strings"
 	"sync"
 	"testing"
@@ -29,6 +32,7 @@ type vfC04Val struct {
 	Res     string `json:"res"` // Acc | Rej | Ign | Other
 	Topic   bool   `json:"topic_validator"`
 	Blocked bool   `json:"throttle_exhausted"` // the blocker is parked in this (async) validator
+	Raw     int    `json:"raw_value"`          // for Other: the out-of-range value returned (0 = 99)
 }
 
 type vfC04Case struct {
@@ -39,6 +43,7 @@ type vfC04Case struct {
 	Order     []int      `json:"completion_order"` // indices into the async list
 	During    []int      `json:"dups_during"`
 	After     []int      `json:"dups_after"`
+	QFull     int        `json:"validation_queue_full"` // > 0: queue of that size, its worker parked (in validator 0, inline) and the queue filled before the message arrives
 }
 
 type vfC04Obs struct {
@@ -57,6 +62,9 @@ type vfC04Tracer struct {
 }
 
 func (tr *vfC04Tracer) RejectMessage(m *Message, reason string) { tr.onReject(string(m.Data), reason) }
+
+// out-of-range verdicts: above and below the defined ones, small and extreme
+var vfC04Raw = []int{99, 3, 1 << 30, -1, -2, -2147483648}
 
 func vfC04Verdict(s string) ValidationResult {
 	switch s {
@@ -94,6 +102,8 @@ func vfC04Run(t *testing.T, c vfC04Case) (obs vfC04Obs) {
 				reason = 2
 			case RejectValidationThrottled:
 				reason = 3
+			case RejectValidationQueueFull:
+				reason = 4
 			default:
 				reason = 9
 			}
@@ -101,9 +111,20 @@ func vfC04Run(t *testing.T, c vfC04Case) (obs vfC04Obs) {
 		}}
 		releases := make([]chan struct{}, len(c.Vals))
 		blockerRelease := make(chan struct{})
+		qRelease := make(chan struct{})
 		mk := func(i int) ValidatorEx {
 			releases[i] = make(chan struct{})
 			return func(vctx context.Context, _ peer.ID, m *Message) ValidationResult {
+				if d := string(m.Data); d == "Q" || strings.HasPrefix(d, "F") {
+					// the message that keeps the only worker busy, and the fillers of the validation queue
+					if d == "Q" && i == 0 && c.QFull > 0 {
+						select {
+						case <-qRelease:
+						case <-ctx.Done():
+						}
+					}
+					return ValidationAccept
+				}
 				if string(m.Data) == "B" {
 					if c.Vals[i].Blocked && !c.Vals[i].Inline {
 						select {
@@ -122,6 +143,9 @@ func vfC04Run(t *testing.T, c vfC04Case) (obs vfC04Obs) {
 					case <-ctx.Done():
 					}
 				}
+				if c.Vals[i].Res == "Other" && c.Vals[i].Raw != 0 {
+					return ValidationResult(c.Vals[i].Raw)
+				}
 				return vfC04Verdict(c.Vals[i].Res)
 			}
 		}
@@ -133,6 +157,9 @@ func vfC04Run(t *testing.T, c vfC04Case) (obs vfC04Obs) {
 		th := &PeerScoreThresholds{GossipThreshold: -1e9, PublishThreshold: -1e9 - 1, GraylistThreshold: -1e9 - 2}
 		opts := []Option{WithMessageSignaturePolicy(StrictNoSign), WithMessageIdFn(func(m *pb.Message) string { return string(m.Data) }),
 			WithValidateWorkers(1), WithValidateThrottle(c.GlobalCap), WithRawTracer(tr), WithPeerScore(sp, th)}
+		if c.QFull > 0 {
+			opts = append(opts, WithValidateQueueSize(c.QFull))
+		}
 		for i, v := range c.Vals {
 			if v.Topic {
 				continue
@@ -189,7 +216,20 @@ func vfC04Run(t *testing.T, c vfC04Case) (obs vfC04Obs) {
 		if c.Blocker {
 			recv("B", 9)
 		}
-		if c.Local {
+		if c.QFull > 0 {
+			// the worker parks inside the first (inline) validator, the queue fills up
+			recv("Q", 9)
+			for k := 0; k < c.QFull; k++ {
+				recv(fmt.Sprintf("F%d", k), 9)
+			}
+			recv("M", 0)
+			for _, p := range c.After {
+				recv("M", p)
+				obs.After = append(obs.After, p)
+			}
+			close(qRelease)
+			synctest.Wait()
+		} else if c.Local {
 			err := topic.Publish(ctx, []byte("M"))
 			obs.PubErr = err != nil
 			synctest.Wait()
@@ -269,7 +309,7 @@ func vfC04Lit(c vfC04Case, o vfC04Obs) string {
 		pens = append(pens, fmt.Sprintf("(%d, %d)", p, o.Pens[p]))
 	}
 	inv := vfList(o.Invoked, vfBool)
-	return fmt.Sprintf("{| k_setup := {| s_vals := [%s]; s_local := %v; s_global_thr := %v; s_thr := [%s]; s_order := %s |};\n   k_from := 0; k_during := %s; k_after := %s;\n   o_delivered := %v; o_reason := %d; o_pub_err := %v; o_invoked := %s; o_penalties := [%s] |}",
+	return fmt.Sprintf("{| k_setup := {| s_vals := [%s]; s_local := %v; s_global_thr := %v; s_thr := [%s]; s_order := %s |}; k_qfull := "+vfBool(c.QFull > 0)+";\n   k_from := 0; k_during := %s; k_after := %s;\n   o_delivered := %v; o_reason := %d; o_pub_err := %v; o_invoked := %s; o_penalties := [%s] |}",
 		strings.Join(vals, "; "), c.Local, c.Blocker && c.GlobalCap == 1 && nasync > 0 && anyBlocked, strings.Join(thr, "; "), vfNats(c.Order),
 		vfNats(o.During), vfNats(o.After), o.Delivered, o.Reason, o.PubErr, inv, strings.Join(pens, "; "))
 }
@@ -280,6 +320,10 @@ func TestVF_C04(t *testing.T) {
 	rng := vfRng(4)
 	resv := []string{"Acc", "Rej", "Ign", "Other"}
 	emit := func(c vfC04Case) {
+		// the case about to run is kept on disk, so that a crash of the process can be attributed to it
+		if js, err := json.Marshal(c); err == nil {
+			os.WriteFile(filepath.Join(vfOutDir(t), "c04_last_input.json"), js, 0o644)
+		}
 		o := vfC04Run(t, c)
 		nonAcc := false
 		for _, v := range c.Vals {
@@ -303,7 +347,7 @@ func TestVF_C04(t *testing.T) {
 			x := code
 			nas := 0
 			for i := 0; i < n; i++ {
-				v := vfC04Val{Res: resv[x%4], Inline: (x/4)%2 == 0, Topic: i == n-1}
+				v := vfC04Val{Res: resv[x%4], Inline: (x/4)%2 == 0, Topic: i == n-1, Raw: vfC04Raw[(code+i)%len(vfC04Raw)]}
 				x /= 8
 				if !v.Inline {
 					nas++
@@ -340,14 +384,23 @@ func TestVF_C04(t *testing.T) {
 			if rng.Intn(2) == 0 {
 				r = "Acc"
 			}
-			v := vfC04Val{Res: r, Inline: rng.Intn(2) == 0, Topic: i == n-1 && rng.Intn(3) != 0, Blocked: rng.Intn(2) == 0}
+			v := vfC04Val{Res: r, Inline: rng.Intn(2) == 0, Topic: i == n-1 && rng.Intn(3) != 0, Blocked: rng.Intn(2) == 0, Raw: vfC04Raw[rng.Intn(len(vfC04Raw))]}
 			if !v.Inline {
 				nas++
 			}
 			c.Vals = append(c.Vals, v)
 			cs.kind(r)
 		}
-		if c.Local {
+		if !c.Local && rng.Intn(8) == 0 {
+			// a full validation queue: the first validator is inline and accepts (the worker parks in it for another message)
+			c.QFull = 1 + rng.Intn(2)
+			c.Blocker = false
+			c.Vals[0].Inline, c.Vals[0].Res, c.Vals[0].Topic = true, "Acc", n == 1 && c.Vals[0].Topic
+			for j := rng.Intn(3); j > 0; j-- {
+				c.After = append(c.After, 1+rng.Intn(6))
+			}
+			cs.kind("queue-full")
+		} else if c.Local {
 			c.Blocker = false
 		} else {
 			c.Order = rng.Perm(nas)
@@ -378,7 +431,8 @@ func TestVF_C04(t *testing.T) {
 		}
 		emit(c)
 	}
-	cs.flush("every verdict vector (Accept/Reject/Ignore/out-of-range) over up to N validators x inline/async placement (last = topic validator), remote and local origin; " +
-		"plus random configurations with up to 4 validators, random completion orders of the asynchronous ones, exhausted global / per-validator throttles (a parked blocker message), duplicate copies from other peers during and after validation. " +
+	os.Remove(filepath.Join(vfOutDir(t), "c04_last_input.json"))
+	cs.flush("every verdict vector (Accept/Reject/Ignore/out-of-range: 3, 99, 2^30, -1, -2, -2^31) over up to N validators x inline/async placement (last = topic validator), remote and local origin; " +
+		"plus random configurations with up to 4 validators, random completion orders of the asynchronous ones, exhausted global / per-validator throttles (a parked blocker message), a full validation queue (the only worker parked, the queue filled), duplicate copies from other peers during and after validation. " +
 		"non-trivial = some validator does not accept; distinct = hash of configuration+observations")
 }
